@@ -1,6 +1,6 @@
 //! C09 — untrusted bytes never crash; bounded work (E-GRID + E-PROC + MON).
 use crate::fx::Party;
-use crate::keyring::{EncodedPk, EncodedSk, Keyring};
+use crate::kra;
 use crate::mon;
 use crate::proc::{self, Cmd, Scratch};
 use crate::refspec as r;
@@ -327,23 +327,30 @@ fn string_surfaces(rep: &Report) {
     let n = strs.len();
     strs.par_iter().for_each(|s| {
         let d = || json!({"kind":"string","s":s});
+        if !kra::AVAILABLE {
+            // the same strings as a black box: `kestrel key extract-pub STRING` must end with exit 0 or a clean error
+            if !s.contains('\0') {
+                let sc = crate::proc::Scratch::new();
+                let out = crate::proc::run(&crate::proc::Cmd::new(&["key", "extract-pub", s.as_str(), "--env-pass"]).env("KESTREL_PASSWORD", "c09"), &sc.0);
+                rep.eval(1);
+                if let Err(e) = out.well_behaved() {
+                    rep.violation("panic/cli-key-string", d(), format!("kestrel key extract-pub {:?}: {}", s, e));
+                }
+            }
+            rep.nontrivial(s.as_bytes());
+            return;
+        }
         // public key path: try_from + decode
-        let _ = no_panic(rep, "EncodedPk/decode_public_key", d, || match EncodedPk::try_from(s.as_str()) {
-            Ok(e) => Keyring::decode_public_key(&e).is_ok(),
-            Err(_) => false,
-        });
+        let _ = no_panic(rep, "EncodedPk/decode_public_key", d, || kra::decode_pk(s.as_str()).is_some());
         // private key path: try_from + unlock only when REF says it would not be a valid blob under this password (avoid scrypt per string)
         // a string accepted by try_from is then used by unlock (as_bytes): only strings that are NOT plain
         // base64 of 84 bytes reach this without costing a scrypt on the pristine tree
-        let _ = no_panic(rep, "EncodedSk::try_from/unlock", d, || match EncodedSk::try_from(s.as_str()) {
-            Ok(e) => {
-                if r::b64_decode(s).map(|b| b.len() == 84 && b[..4] == r::SK_MAGIC).unwrap_or(false) {
-                    true
-                } else {
-                    Keyring::unlock_private_key(&e, b"c09").is_ok()
-                }
+        let _ = no_panic(rep, "EncodedSk::try_from/unlock", d, || {
+            if r::b64_decode(s).map(|b| b.len() == 84 && b[..4] == r::SK_MAGIC).unwrap_or(false) {
+                kra::sk_syntax_ok(s.as_str())
+            } else {
+                kra::unlock(s.as_str(), b"c09").is_some()
             }
-            Err(_) => false,
         });
         rep.nontrivial(s.as_bytes());
     });
@@ -354,11 +361,11 @@ fn string_surfaces(rep: &Report) {
         b
     }];
     for b in shapes {
+        if !kra::AVAILABLE {
+            break;
+        }
         let s = r::b64(&b);
-        let _ = no_panic(rep, "unlock_private_key", || json!({"kind":"unlock","s":s}), || match EncodedSk::try_from(s.as_str()) {
-            Ok(e) => Keyring::unlock_private_key(&e, b"c09").is_ok(),
-            Err(_) => false,
-        });
+        let _ = no_panic(rep, "unlock_private_key", || json!({"kind":"unlock","s":s}), || kra::unlock(s.as_str(), b"c09").is_some());
     }
     rep.extra("key_strings", json!(n));
     // keyring text surface: long lines / long names made of multi-byte characters in every line role (the token-sequence
@@ -381,7 +388,19 @@ fn string_surfaces(rep: &Report) {
     texts.dedup();
     let nt = texts.len();
     texts.par_iter().for_each(|t| {
-        let _ = no_panic(rep, "Keyring::new", || json!({"kind":"keyring-text","text":t}), || Keyring::new(t).is_ok());
+        if !kra::AVAILABLE {
+            let sc = crate::proc::Scratch::new();
+            sc.write("kr.txt", t.as_bytes());
+            sc.write("p.bin", b"x");
+            let out = crate::proc::run(&crate::proc::Cmd::new(&["encrypt", "p.bin", "-t", "ok", "-f", "ok", "-k", "kr.txt", "-o", "o.ktl", "--env-pass"]).env("KESTREL_PASSWORD", "c09"), &sc.0);
+            rep.eval(1);
+            if let Err(e) = out.well_behaved() {
+                rep.violation("panic/cli-keyring-text", json!({"kind":"keyring-text","text":t}), format!("kestrel encrypt with a hostile keyring file: {}", e));
+            }
+            rep.nontrivial(t.as_bytes());
+            return;
+        }
+        let _ = no_panic(rep, "Keyring::new", || json!({"kind":"keyring-text","text":t}), || kra::parse(t).is_ok());
         rep.nontrivial(t.as_bytes());
     });
     rep.extra("keyring_texts", json!(nt));
@@ -649,6 +668,7 @@ pub fn run(rep: &'static Report) {
     rep.set_rule("E-GRID per untrusted-input surface (all byte strings of length <= 2, every prefix of authentic files, every message length for noise_decrypt and the AEAD wrappers, every length/character-class of key strings, hostile values of every header field under heap accounting) and E-PROC: every argument vector of length <= 3 (quick) / <= 4 (thorough) over a 28-token vocabulary under two environments, as real processes. distinct non-trivial = distinct inputs per surface");
     rep.assume("the keyring parser surface is enumerated by C17; all C03 graph states also run under the panic guard");
     rep.assume("stdin is /dev/null and the process has no controlling terminal (setsid), so prompts cannot block; wall limit 30 s per process");
+    kra::note(rep);
     let ids = idents(rep.seed);
     file_surface(rep, &ids);
     bounded_work(rep, &ids);
